@@ -13,13 +13,13 @@ def all_states():
 
 
 def boundary_states():
-    """every inline state; per heap capacity c: empty, one, just above the previous capacity, one below full, full"""
+    """every inline state; per heap capacity c: empty, just above the previous capacity, one below full, full"""
     out = []
     for rep, c in enumerate(CAPS):
         if rep == 0:
             out += [(0, n) for n in range(4)]
         else:
-            out += [(rep, n) for n in sorted({0, 1, c // 2 + 1, c - 1, c})]
+            out += [(rep, n) for n in sorted({0, c // 2 + 1, c - 1, c})]
     return out
 
 
@@ -109,8 +109,10 @@ def plan(tier):
               '{suspend_point<void>, suspend_point<int>}' % (list(ks), list(k0s)),
         data='value returned by fn: unconstrained int', bounds='<= 8 readied coroutines', outside='-'))
     if quick:
-        vh = hist_vectors(2) + [v for v in hist_vectors(3, modes=(0,), minlen=3) if interesting(v) and (v[2] in (1, 3) or v[3] in (1, 3))]
-        sph = ('every history over %s of length <= 2 in normal and in coroutine mode; of length 3 in normal mode those that start with an add, contain an add4 '
+        vh = hist_vectors(2, modes=(0,)) + hist_vectors(1, modes=(1,)) + [v for v in hist_vectors(2, modes=(1,), minlen=2) if v[2] <= 3] + \
+             [v for v in hist_vectors(3, modes=(0,), minlen=3) if interesting(v) and (v[2] in (1, 3) or v[3] in (1, 3))]
+        sph = ('every history over %s of length <= 2 in normal mode and of length <= 1 in coroutine mode; of length 2 in coroutine mode those that start with an add; '
+               'of length 3 in normal mode those that start with an add, contain an add4 '
                '(heap path) among the first two operations and a merging/consuming operation; then destruction of A, B and the C objects' % (HOPS,))
     else:
         vh = hist_vectors(3) + [v for v in hist_vectors(4, minlen=4) if interesting(v)]
